@@ -74,8 +74,11 @@ func runRules(p *Prog, prop, tier string) *Ctx {
 			r.Run(c)
 		}()
 		n := len(c.Obls) - before
-		if n < r.Floor {
-			c.undecided("floor", nil, fmt.Sprintf("rule %s produced %d obligations, fewer than the %d confirmed by hand: the rule lost its subjects", r.ID, n, r.Floor))
+		// Floor is the instance count confirmed by reading today's tree. Helper extraction and
+		// similar refactorings move a few instances, so the alarm threshold is 85 % of it: it
+		// guards against a rule that silently stopped matching, not against exact counts.
+		if n < r.Floor*85/100 {
+			c.undecided("floor", nil, fmt.Sprintf("rule %s produced %d obligations, far fewer than the %d confirmed by hand: the rule lost its subjects", r.ID, n, r.Floor))
 		}
 	}
 	sortObls(c.Obls)
